@@ -4,7 +4,8 @@ Functions under contract (VCs generated from their real source):
   diffractive_imaging.object_models : ObjectConstraints.apply_hard_constraints, ObjectPixelated.obj
   tomography.object_models          : ObjectConstraints.apply_hard_constraints
   diffractive_imaging.constraints   : BaseConstraints.__init__, constraints (getter, setter), add_constraint  - every model owns its dict
-  diffractive_imaging.probe_models  : ProbeConstraints._probe_orthogonalization_constraint,
+  diffractive_imaging.ptychography  : Ptychography.reconstruct (prologue: the constraints passed to THIS call are in force, also after its reset)
+  diffractive_imaging.probe_models  : ProbeBase.set_initial_probe (history pre-state), ProbeConstraints._probe_orthogonalization_constraint,
                                       ProbePixelated._apply_weights, ProbePixelated.initial_probe_weights (setter)
 Not under contract (bounded stand-in only): the 6-line dispatch ProbeConstraints.apply_hard_constraints / ProbePixelated.probe.
 
@@ -70,20 +71,32 @@ def make_registry():
 
     reg.models[val.validate_tensor] = m_validate_tensor
 
-    class _RestOfInitChain:
-        """`super()` inside BaseConstraints.__init__: the rest of the cooperative __init__ chain (ObjectBase / ProbeBase / nn.Module ...)
-        is not interpreted; ASSUMPTION: it runs BEFORE `_constraints` is assigned and never touches DEFAULT_CONSTRAINTS."""
+    from pyvc.lib import super_ as _super
 
-        _pyvc_value = True
+    _super.install(reg)
+    # `super().__init__` inside BaseConstraints.__init__ resolves along the real MRO to ObjectBase / ProbeBase.__init__: collaborators
+    # outside this contract (ASSUMED FRAME: they run BEFORE `_constraints` is assigned and never touch DEFAULT_CONSTRAINTS)
+    reg.opaque_calls = set(getattr(reg, "opaque_calls", ())) | {f"{OM}:ObjectBase.__init__", f"{PM}:ProbeBase.__init__"}
+    import torch as _torch
+    from pyvc.interp import RaiseSig as _RaiseSig
 
-        def __init__(self, *a, **k):
-            pass
+    def m_module_getattr(interp, obj, name):
+        """nn.Module.__getattr__ (only reached when normal lookup failed): parameters / buffers / sub-modules live in the abstract
+        object's fields as well, so a miss is an AttributeError."""
+        if isinstance(obj, Obj):
+            for reg_name in ("_parameters", "_buffers", "_modules"):
+                d = obj.fields.get(reg_name)
+                if isinstance(d, dict) and name in d:
+                    return d[name]
+            raise _RaiseSig(AttributeError(name))
+        return NotImplemented
 
-    reg.models[super] = lambda interp, *a: _RestOfInitChain()
+    reg.models[_torch.nn.Module.__getattr__] = m_module_getattr
     reg.ctor_models[dict] = lambda interp, *a, **k: dict(*a, **k)  # python dicts are real dicts (symbolic values, concrete keys)
     import quantem.diffractive_imaging.probe_models as pmod
 
     reg.models[pmod.validate_tensor] = m_validate_tensor
+    install_recon(reg)
     return reg
 
 
@@ -648,13 +661,28 @@ def bk_models(ctx):
     return cls, other
 
 
+def bk_bind(s):
+    """at a call site only the parameters are bound: the model class is the receiver's, there is no designated `other` model"""
+    if not hasattr(s, "cls"):
+        s.cls = s.self.cls
+        s.other = None
+        CLASS_DEFAULTS.setdefault(s.cls, dict(CLASS_DEFAULTS.get(s.cls.__mro__[1], s.cls.DEFAULT_CONSTRAINTS)))
+    return s
+
+
 def bk_frame(s, tag):
-    cls = s.cls
+    cls = bk_bind(s).cls
+    if s.other is None:
+        return [(f"{tag}:class-defaults-unchanged", cls.DEFAULT_CONSTRAINTS == s.old.defaults)]
     return [(f"{tag}:class-defaults-unchanged", cls.DEFAULT_CONSTRAINTS == s.old.defaults and cls.DEFAULT_CONSTRAINTS == CLASS_DEFAULTS[cls]),
             (f"{tag}:other-model-unchanged", s.other.fields["_constraints"] == s.old.other and s.other.fields["_constraints"] is s.old.other_id)]
 
 
 def bk_snapshot(s):
+    bk_bind(s)
+    if s.other is None:
+        return NS(defaults=dict(s.cls.DEFAULT_CONSTRAINTS), other=None, other_id=None,
+                  mine=dict(s.self.fields["_constraints"]), mine_id=s.self.fields["_constraints"])
     return NS(defaults=dict(s.cls.DEFAULT_CONSTRAINTS), other=dict(s.other.fields["_constraints"]), other_id=s.other.fields["_constraints"],
               mine=dict(s.self.fields["_constraints"]) if "_constraints" in s.self.fields else None, mine_id=s.self.fields.get("_constraints"))
 
@@ -742,12 +770,154 @@ def addc_setup(ctx):
 
 C_BCADD = Contract(f"{CN}:BaseConstraints.add_constraint", setup=addc_setup, snapshot=bk_snapshot,
                    ensures=lambda s: _written(s, {s.key: s.value}, "add_constraint"),
-                   raises={KeyError: lambda s: s.key not in s.cls.DEFAULT_CONSTRAINTS},
+                   raises={KeyError: lambda s: s.key not in bk_bind(s).cls.DEFAULT_CONSTRAINTS},
+                   modifies=lambda ctx, s: s.self.fields["_constraints"].__setitem__(s.key, s.value),
                    on_raise=lambda s, E: bk_frame(s, "add_constraint:on-KeyError") + [("add_constraint:on-KeyError:own-dict-unchanged", s.self.fields["_constraints"] == s.old.mine)])
 
 BOOKKEEPING = [C_BCINIT, C_BCGET, C_BCSET, C_BCADD]
 
-CONTRACTS = AHC_ALL + [C_OBJPROP, C_TOM, C_GS, C_AW, C_IPW] + BOOKKEEPING
+# ================================================================================================================
+# 6. ProbeBase.set_initial_probe: the intensity the probe is normalised to is THIS call's measured mean intensity
+# ================================================================================================================
+PBASE = resolve(f"{PM}:ProbeBase")
+
+
+def sip_setup(ctx):
+    import numpy as np
+    import torch
+
+    pre = pick(ctx, "pre_state", ["already-initialised-with-other-values", "fresh"])
+    roi = pick(ctx, "roi", [(4, 6), (5, 6)])
+    fields = dict(_device="cpu", _num_probes=2)
+    old_m = None
+    if pre != "fresh":
+        # history: this probe model was initialised before, for another acquisition (other dose, other sampling)
+        old_m = ctx.fresh("previous_mean_intensity", "real")
+        ctx.assume(old_m.t > 0)
+        fields.update(_roi_shape=np.array([4, 6]), _mean_diffraction_intensity=old_m, _reciprocal_sampling=torch.tensor([0.5, 0.25]))
+    m = ctx.fresh("mean_diffraction_intensity", "real")
+    me = Obj(PP, fields)
+    return NS(self=me, roi_shape=roi, reciprocal_sampling=np.array([0.125, 0.0625]), mean_diffraction_intensity=m, device=None,
+              pre=pre, old_m=old_m, case=f"{pre},roi={roi}")
+
+
+def sip_conflict(s):
+    return s.pre != "fresh" and tuple(s.roi_shape) != (4, 6)
+
+
+def sip_ensures(s):
+    import numpy as np
+
+    f = s.self.fields
+    m = f.get("_mean_diffraction_intensity")
+    rs = f.get("_reciprocal_sampling")
+    return [("mean_diffraction_intensity-is-the-value-passed-to-THIS-call", m is not None and lift(m) == lift(s.mean_diffraction_intensity)),
+            ("reciprocal_sampling-is-the-value-passed-to-THIS-call", rs is not None and not V.contains_sym(rs)
+             and np.allclose(np.asarray(rs, dtype=float), np.asarray(s.reciprocal_sampling, dtype=float))),
+            ("roi_shape-is-the-value-passed-to-THIS-call", "_roi_shape" in f and tuple(int(x) for x in f["_roi_shape"]) == tuple(s.roi_shape))]
+
+
+C_SIP = Contract(f"{PM}:ProbeBase.set_initial_probe", setup=sip_setup, ensures=sip_ensures,
+                 raises={ValueError: lambda s: OR(sip_conflict(s), AND(not sip_conflict(s), lift(s.mean_diffraction_intensity) <= 0))})
+
+# ================================================================================================================
+# 7. Ptychography.reconstruct (prologue): the constraints in force when the epoch loop starts are the ones passed to THIS call
+# ================================================================================================================
+# Reuses the prologue machinery of contracts/C09.py (seeded / unseeded reconstruction object, opaque optimiser / scheduler /
+# dataset collaborators, SimpleBatcher.__init__ and _reset_rng through their C09 contracts); here the object and probe models
+# are abstract instances of the real model classes that own real constraint dicts, and reset_recon / the constraints setter are
+# INTERPRETED (reset_recon ends by writing the class defaults into the object model).
+from . import C09 as c09  # noqa: E402
+
+PB = c09.PB
+PTY = c09.PTY
+OPTM = "quantem.core.ml.optimizer_mixin"
+RECON_REQUESTS = ["object:identical_slices", "object:two-keys+probe", "probe-only", "empty", "dataset-only", "bad-category"]
+
+
+def _hermetic(base):
+    cls = type(base.__name__, (base,), {"DEFAULT_CONSTRAINTS": dict(CLASS_DEFAULTS[base]), "__module__": base.__module__})
+    CLASS_DEFAULTS[cls] = dict(CLASS_DEFAULTS[base])
+    return cls
+
+
+def rc_setup(ctx):
+    s = c09.recon_setup(ctx)
+    o = s.self
+    ocls, pcls = _hermetic(OP), _hermetic(PP)
+    # history: both models were configured by earlier calls to arbitrary values
+    prior_o = {k: ctx.fresh("prior_obj_" + k, "real") for k in ocls.DEFAULT_CONSTRAINTS}
+    prior_p = {k: ctx.fresh("prior_probe_" + k, "real") for k in pcls.DEFAULT_CONSTRAINTS}
+    om, pm = Obj(ocls, dict(_constraints=dict(prior_o))), Obj(pcls, dict(_constraints=dict(prior_p)))
+    o.fields.update(_obj_model=om, _probe_model=pm)
+    kind = pick(ctx, "request", RECON_REQUESTS)
+    v = lambda n: ctx.fresh(n, "bool")
+    req = {"object:identical_slices": lambda: {"object": {"identical_slices": v("v0")}},
+           "object:two-keys+probe": lambda: {"object": {"identical_slices": v("v0"), "apply_fov_mask": v("v1")}, "probe": {"orthogonalize_probe": v("v2")}},
+           "probe-only": lambda: {"probe": {"orthogonalize_probe": v("v0")}},
+           "empty": lambda: {},
+           "dataset-only": lambda: {"dataset": {"descan_tv_weight": v("v0")}},
+           "bad-category": lambda: {"objekt": {"identical_slices": v("v0")}}}[kind]()
+    # every positional parameter up to `batch_size` is bound explicitly (the engine passes the setup's attributes positionally)
+    s.optimizer_params = None
+    s.scheduler_params = None
+    s.constraints = req
+    s.req_copy = {k: dict(d) for k, d in req.items()}
+    s.kind, s.om, s.pm, s.prior_o, s.prior_p, s.ocls, s.pcls = kind, om, pm, prior_o, prior_p, ocls, pcls
+    s.case = kind
+    return s
+
+
+def _is_default(v, d):
+    return not V.contains_sym(v) and type(v) is type(d) and v == d or v is d
+
+
+def rc_ensures(s):
+    oc, pc = s.om.fields.get("_constraints"), s.pm.fields.get("_constraints")
+    if not isinstance(oc, dict) or not isinstance(pc, dict):
+        return [("models-keep-a-constraint-dict", False)]
+    req_o, req_p = s.req_copy.get("object", {}), s.req_copy.get("probe", {})
+    reset = lift(s.reset)
+    d_o = CLASS_DEFAULTS[s.ocls]
+    out = [("object-constraints-requested-in-THIS-call-are-in-force-when-the-epoch-loop-starts", all(k in oc and oc[k] is val for k, val in req_o.items())),
+           ("probe-constraints-requested-in-THIS-call-are-in-force-when-the-epoch-loop-starts", all(k in pc and pc[k] is val for k, val in req_p.items())),
+           ("object-constraints-not-requested:defaults-after-reset-else-as-before",
+            AND(*[z3.If(reset, z3.BoolVal(bool(_is_default(oc.get(k), d_o[k]))), z3.BoolVal(oc.get(k) is s.prior_o[k])) for k in d_o if k not in req_o],
+                set(oc) == set(d_o))),
+           ("probe-constraints-not-requested:as-before", all(pc.get(k) is s.prior_p[k] for k in s.prior_p if k not in req_p) and set(pc) == set(s.prior_p)),
+           ("class-defaults-unchanged", s.ocls.DEFAULT_CONSTRAINTS == d_o and s.pcls.DEFAULT_CONSTRAINTS == CLASS_DEFAULTS[s.pcls]),
+           ("models-keep-their-own-dict-objects", oc is not pc and oc is not s.ocls.DEFAULT_CONSTRAINTS and pc is not s.pcls.DEFAULT_CONSTRAINTS),
+           ("frame:the-caller's-constraints-argument-is-not-written", set(s.constraints) == set(s.req_copy)
+            and all(set(s.constraints[k]) == set(s.req_copy[k]) and all(s.constraints[k][j] is s.req_copy[k][j] for j in s.req_copy[k]) for k in s.req_copy))]
+    return out
+
+
+def rc_on_raise(s, E):
+    oc = s.om.fields.get("_constraints")
+    return [("rejected-request:class-defaults-unchanged", s.ocls.DEFAULT_CONSTRAINTS == CLASS_DEFAULTS[s.ocls] and s.pcls.DEFAULT_CONSTRAINTS == CLASS_DEFAULTS[s.pcls]),
+            ("rejected-request:no-unknown-key-stored", isinstance(oc, dict) and set(oc) == set(CLASS_DEFAULTS[s.ocls]))]
+
+
+C_RECON10 = Contract(f"{PTY}:Ptychography.reconstruct", setup=rc_setup, ensures=rc_ensures, snapshot=c09.reset_snapshot,
+                     raises={KeyError: lambda s: s.kind == "bad-category"}, on_raise=rc_on_raise,
+                     inline=list(c09.C_RECON.inline) + [f"{PTY}:Ptychography.reset_recon", f"{PB}:PtychographyBase.reset_recon",
+                                                        f"{PB}:PtychographyBase.constraints"])
+
+
+def install_recon(reg):
+    import torch
+
+    c09._REG_HOLDER["reg"] = reg
+    for c in (c09.C_INIT, c09.C_RESET, c09.C_CPA):       # callees used through the contracts proved under C09
+        reg.contracts[c.func] = c
+    c09._install_recon_models(reg)
+    reg.opaque_calls = (set(reg.opaque_calls) - {f"{PB}:PtychographyBase.constraints"}) | {
+        f"{OM}:ObjectPixelated.reset", f"{PM}:ProbePixelated.reset", f"{PM}:ProbeBase.reset", f"{OPTM}:OptimizerMixin.reset_optimizer"}
+    reg.inline.add(f"{c09.PU}:SimpleBatcher.rng")
+    reg.models[torch.Generator] = lambda interp, device=None: c09._TorchGen(device)
+    reg.ctor_models[torch.Generator] = lambda interp, device=None: c09._TorchGen(device)
+
+CONTRACTS = AHC_ALL + [C_OBJPROP, C_TOM, C_GS, C_AW, C_IPW] + BOOKKEEPING + [C_SIP, C_RECON10]
 
 # ================================================================================================================
 # property-level lemmas (from the contract statements alone)
@@ -1306,6 +1476,117 @@ for _c in BOOKKEEPING:
     _c.rt, _c.rt_family = rt_history, fam_history
 
 
+def _toy10(num_slices, obj_type="complex", seed=0):
+    """C09's 6x6-scan toy reconstruction object with a multislice object model of the requested type"""
+    from quantem.diffractive_imaging.object_models import ObjectPixelated
+
+    pt = c09._toy(seed)
+    pt.obj_model = ObjectPixelated.from_uniform(num_slices=num_slices, obj_type=obj_type, slice_thicknesses=2.0 if num_slices > 1 else None)
+    pt.preprocess(obj_padding_px=(0, 0))
+    return pt
+
+
+def rt_recon(inp):
+    """reconstruct(constraints=...) on the real classes: the models are configured as THIS call asked when the epochs run"""
+    import copy
+    import warnings
+
+    warnings.filterwarnings("ignore")
+    pt = _toy10(inp["S"], inp.get("typ", "complex"), inp.get("seed", 0))
+    if inp.get("prior"):
+        pt.constraints = copy.deepcopy(inp["prior"])
+    req = copy.deepcopy(inp["req"])
+    req0 = copy.deepcopy(req)
+    problems = []
+    try:
+        pt.reconstruct(num_iters=inp.get("iters", 2), reset=inp["reset"], constraints=req, batch_size=12)
+    except KeyError:
+        if all(k in ("object", "probe", "dataset", "detector") for k in req):
+            problems.append("valid request rejected with KeyError")
+        return dict(violated=bool(problems), observed="; ".join(problems) or "ok (rejected)", expected="KeyError only for an unknown category")
+    oc, pc = pt.obj_model.constraints, pt.probe_model.constraints
+    for k, v in req0.get("object", {}).items():
+        if oc.get(k) != v:
+            problems.append(f"object constraint {k}={v!r} requested in this call, in force: {oc.get(k)!r} (reset={inp['reset']})")
+    for k, v in req0.get("probe", {}).items():
+        if pc.get(k) != v:
+            problems.append(f"probe constraint {k}={v!r} requested in this call, in force: {pc.get(k)!r}")
+    if req != req0:
+        problems.append("the caller's constraints dict was modified")
+    o = pt.obj_model.obj.detach()
+    if req0.get("object", {}).get("identical_slices") and inp["S"] > 1 and float((o - o[0:1]).abs().max()) > 1e-7:
+        problems.append(f"identical_slices requested but the object handed to the forward model has differing slices (max dev {float((o - o[0:1]).abs().max()):.3g})")
+    if inp.get("typ") == "potential" and req0.get("object", {}).get("positivity", True) and float(o.min()) < 0:
+        problems.append(f"positivity requested but min value {float(o.min()):.3g}")
+    return dict(violated=bool(problems), observed="; ".join(problems[:3]) or "ok",
+                expected="constraints passed to reconstruct() are in force for its epochs, also with reset=True; tied slices when requested")
+
+
+def fam_recon(tier="quick", seed=0):
+    for reset in (True, False):
+        for S_ in (2, 1):
+            yield dict(S=S_, reset=reset, req={"object": {"identical_slices": True}}, seed=seed)
+            yield dict(S=S_, reset=reset, req={"object": {"identical_slices": True, "apply_fov_mask": True}, "probe": {"orthogonalize_probe": False}},
+                       prior={"object": {"identical_slices": False}}, seed=seed)
+        yield dict(S=2, reset=reset, typ="potential", req={"object": {"identical_slices": True, "positivity": True}}, prior={"object": {"positivity": False}}, seed=seed)
+        yield dict(S=2, reset=reset, req={"probe": {"orthogonalize_probe": True}}, seed=seed)
+        yield dict(S=1, reset=reset, req={}, seed=seed)
+        yield dict(S=1, reset=reset, req={"objekt": {"identical_slices": True}}, seed=seed)
+
+
+def rc_concretize(ev):
+    kind = RECON_REQUESTS[-1]
+    for k in RECON_REQUESTS[:-1]:
+        if ev(f"request_is_{k}"):
+            kind = k
+            break
+    req = {"object:identical_slices": {"object": {"identical_slices": True}},
+           "object:two-keys+probe": {"object": {"identical_slices": True, "apply_fov_mask": True}, "probe": {"orthogonalize_probe": False}},
+           "probe-only": {"probe": {"orthogonalize_probe": False}}, "empty": {}, "dataset-only": {},
+           "bad-category": {"objekt": {"identical_slices": True}}}[kind]
+    return dict(S=2, reset=bool(ev("reset", True)), req=req, seed=0)
+
+
+C_RECON10.rt, C_RECON10.rt_family, C_RECON10.concretize = rt_recon, fam_recon, rc_concretize
+
+
+def rt_probe_reinit(inp):
+    """History on the real ProbePixelated: initialise, then initialise AGAIN for an acquisition with another mean intensity."""
+    import numpy as np
+    import torch
+    from quantem.diffractive_imaging.probe_models import ProbePixelated
+
+    n, H, W = inp["n"], inp["H"], inp["W"]
+    rng = np.random.default_rng(inp.get("seed", 0))
+    w = list(rng.uniform(0.1, 1.0, size=n)) if inp.get("weights") else None
+    arr = _probe_stack(n, H, W, 0.3, inp.get("seed", 0)).astype(np.complex128)
+    p = ProbePixelated.from_array(arr, initial_probe_weights=w, dtype=torch.complex128, rng=inp.get("seed", 0))
+    problems = []
+    for I0 in inp["intensities"]:
+        p.set_initial_probe((H, W), np.array([0.1, 0.1]), float(I0))
+        ip_ = p.initial_probe.detach()
+        tot = float((torch.fft.fft2(ip_, norm="ortho").abs() ** 2).sum())
+        if abs(float(p.mean_diffraction_intensity) - I0) > 1e-9 * I0:
+            problems.append(f"mean_diffraction_intensity is {float(p.mean_diffraction_intensity):.6g} after initialising with {I0:.6g}")
+        if abs(tot - I0) > 1e-5 * I0:
+            problems.append(f"initial probe total diffraction intensity {tot:.6g} != measured mean intensity {I0:.6g} of this initialisation")
+        per = (ip_.abs() ** 2).sum(dim=(1, 2)).numpy()
+        W_ = p.initial_probe_weights.double().numpy()
+        if not np.allclose(per / per.sum(), W_, atol=1e-5):
+            problems.append("relative mode weights differ from the requested ones")
+    return dict(violated=bool(problems), observed="; ".join(problems[:3]) or "ok",
+                expected="after every initialisation: total diffraction intensity = the mean intensity passed to THAT call, requested mode weights")
+
+
+def fam_probe_reinit(tier="quick", seed=0):
+    for n in (1, 2, 3):
+        for ints in ([50.0], [50.0, 800.0], [1e4, 3.0, 3.0], [7.0, 7.0]):
+            yield dict(n=n, H=4, W=5, intensities=ints, weights=(n > 1), seed=seed + n)
+
+
+C_SIP.rt, C_SIP.rt_family = rt_probe_reinit, fam_probe_reinit
+
+
 BOUNDED = [
     Bounded.from_rt("object constraints on random tensors (all configurations, non-triaged claims)", rt_obj, fam_obj,
                     "shapes <=3x3x2 (<=4x5x4 thorough), 3 object types, 4 mask kinds, fov/tie/positivity/baseline flags; float64"),
@@ -1316,6 +1597,10 @@ BOUNDED = [
     Bounded.from_rt("probe_model.probe with orthogonalisation on (dispatch through apply_hard_constraints)", rt_probe_property, fam_probe_property, "1..5 modes, images 3x3 / 4x5"),
     Bounded.from_rt("_apply_weights intensity / weight normalisation", rt_aw, fam_aw, "1..5 modes, images 3x3 / 4x6, 3 mean intensities, one zero weight"),
     Bounded.from_rt("initial_probe_weights setter", rt_ipw, fam_ipw, "1..5 modes, default / given / wrong-length"),
+    Bounded.from_rt("reconstruct(constraints=...) on a toy problem: this call's constraints are in force for its epochs", rt_recon, fam_recon,
+                    "6x6-scan toy problem, 1 / 2 slices, reset on/off, object / probe / empty / invalid requests, 2 iterations"),
+    Bounded.from_rt("probe model initialised repeatedly with different mean intensities", rt_probe_reinit, fam_probe_reinit,
+                    "1..3 modes, 4x5 images, 1..3 consecutive initialisations"),
     Bounded.from_rt("multi-model history: configuring one model leaves the others and the class defaults alone", rt_history, fam_history,
                     "two + one fresh model per case; object models (3 types, 1 / 3 slices, setter and add_constraint) and probe models (1..3 modes)"),
 ]
@@ -1339,6 +1624,8 @@ ASSUMPTIONS = [
     "identical_slices with more than one slice: proved are tied slices, result = slice mean of the untied constrained object, and the type claims of that untied object; amplitude <= 1 and positivity of the mean follow by the step lemmas plus trusted induction (also bounded check)",
     "mode count 1..5 is enumerated for _apply_weights and the weights setter (the property's own range); Gram-Schmidt is proved for every mode count by induction",
     "constraint bookkeeping: the rest of the cooperative __init__ chain behind `super().__init__` in BaseConstraints.__init__ (ObjectBase / ProbeBase / nn.Module / mixins) is not interpreted; it runs before `_constraints` is assigned and does not touch DEFAULT_CONSTRAINTS (full construction of the real classes is exercised by the bounded multi-model history check)",
+    "Ptychography.reconstruct: only the prologue is under contract (num_iters = 0; the state reached is the state in which the epoch loop starts); optimiser / scheduler / dataset collaborators, model reset() and reset_optimizer() are opaque with an ASSUMED frame (they do not touch constraint dicts); SimpleBatcher.__init__, _reset_rng and compute_propagator_arrays are used through the contracts of C09",
+    "ProbeBase.set_initial_probe is verified from a pre-state that already holds another mean intensity / roi_shape (history); the chain ProbePixelated.set_initial_probe -> _apply_random_phase_shifts -> _apply_weights is composed by the bounded re-initialisation check, not by proof",
     "probe center-of-mass constraint, random phase shifts and ProbeParametric/ProbeDIP/ObjectDIP wrappers are outside the claim",
     "the dispatch ProbeConstraints.apply_hard_constraints / ProbePixelated.probe (orthogonalize_probe switch) is covered by a bounded run-time check only, not by proof",
     "two literal claims are NOT met by the unchanged code and are reported as known findings (pure_phase amplitude m^2 under the FOV mask; complex amplitude not idempotent under a fractional FOV mask); what is proved in their place is stated in the obligations next to them",
